@@ -9,9 +9,17 @@ other assignment routes that funnel into it: ``update``, ``setdefault``,
   and from ``bytes``, with ``whitespace-separates-paragraphs=False`` always and
   with the default setting whenever no continuation line of v is blank; the
   re-read must give exactly one paragraph with exactly the field names
-  ``list(d)`` (M.reread).  Independently, an accepted v must carry none of the
-  three stated defects according to the reference model
-  ``vp.models.deb822value`` (M.must-reject).
+  ``list(d)`` (M.reread).  ``str``/``bytes`` are cut into lines by the library
+  with ``splitlines()`` (a CR is a line boundary there).  The dump is therefore
+  also re-read in forms whose lines are cut at LF ONLY, as when it went through
+  a file (M.reread-lf, a sub-count of M.reread): ``io.StringIO``,
+  ``io.BytesIO``, a real text file and a real binary file written by
+  ``dump(fd)``, the list ``dump.split('\\n')`` with and without terminators -
+  through ``iter_paragraphs`` and through the ``Deb822(...)`` constructor.
+  Only the number of paragraphs and the field NAMES are compared, never the
+  values (the statement does not promise equal values).
+  Independently, an accepted v must carry none of the three stated defects
+  according to the reference model ``vp.models.deb822value`` (M.must-reject).
 * rejected  -> the exception is ValueError and ``list(d)`` / ``dump()`` are what
   they were before (M.unchanged).
 
@@ -22,7 +30,11 @@ No "must accept" demand is made anywhere: a value without a stated defect that
 is rejected is only counted.
 """
 import hashlib
+import io
 import itertools
+import os
+import re
+import zlib
 
 from ..models import deb822value as model
 
@@ -41,8 +53,24 @@ RULE = ('Values: (1) ENUMERATED - every concatenation of <= 5 (quick) / <= 7 (th
         "non-ASCII letters, 'Key: value' look-alikes, '#' comments, PGP armour lines, whitespace-only lines) joined by "
         'LF / CR LF / CR with mostly-indented continuations, assigned through item assignment, update(), '
         'setdefault(), Deb822(dict) and re-checked after copy(), target field first/middle/last/new in paragraphs '
-        'of 1..4 fields.  A value is NON-TRIVIAL when it contains a line boundary (LF or CR); distinct = distinct '
-        'value string.')
+        'of 1..4 fields; 1 random value in 6 is CR-CENTRED (boundaries mostly bare CR / CR LF, first line often blank '
+        "so that the dump reads 'Field: <blanks> CR ...', value often ending in CR).  "
+        '(3) RE-READ FORMS of every accepted assignment: always str and bytes through iter_paragraphs (the library cuts '
+        'them with splitlines(): CR is a boundary).  LF-ONLY forms (lines cut at LF only, as when the dump went through '
+        "a file): io.StringIO(dump), io.BytesIO(dump bytes), the list dump.split('\\n') re-terminated with LF, the same "
+        'list without terminators, a real text file (newline=LF, utf-8) and a real binary file written by dump(fd) and '
+        'rewound (two scratch files per shard, rewritten in place); plus the text file re-opened with Python\'s default '
+        'newline translation.  Each through iter_paragraphs(strict=...) and/or the Deb822(source, strict=...) '
+        'constructor (first paragraph; on an iterator/file a second constructor call reads what follows and must find '
+        'nothing).  Which forms a value goes through: an enumerated value CONTAINING CR of <= 6 tokens (and every 8th of '
+        '7 tokens) in the 3-field layout -> BytesIO, the list without terminators, StringIO or the re-terminated list '
+        '(both hand over str lines ending in LF) and one of the two files (+ for 1 in 4 a constructor re-read / the '
+        'translated text file); every other accepted CR value (other layouts: the first '
+        'rotated layout only; 7 tokens; 1 in 2 (quick) / 2 in 3 (thorough) random ones) -> one (form, API) pair chosen '
+        'by a CRC of the value out of 15 pairs (the six LF-only iter_paragraphs pairs weighing double); the remaining random CR values -> two LF-only forms + one '
+        'constructor re-read; values without CR (there the LF-only cut equals the splitlines() cut) -> one pair for a '
+        'rotating fraction; the dump of copy() -> one pair; a --replay runs all 18 (form, API) pairs.  '
+        'A value is NON-TRIVIAL when it contains a line boundary (LF or CR); distinct = distinct value string.')
 ASSUMPTIONS = [
     'vp.models.deb822value (30 lines) states the three defects of the property: value ends in LF; a line after the '
     'first is empty; a line after the first does not start with space/tab.  Lines are split on LF, CR LF, CR; a '
@@ -53,6 +81,23 @@ ASSUMPTIONS = [
     'value could inject; names themselves are not under test (validate_input documents that keys are not validated).',
     'Re-read = Deb822.iter_paragraphs on the dump as str and as UTF-8 bytes (internal parser; python-apt is absent). '
     'The default parser setting is only consulted when no continuation line of the value is blank, as stated.',
+    'LF-only re-read forms: "reading it back" is taken to include reading the dump from a file or any other source '
+    'that hands the parser lines cut at LF only (documented input kinds of Deb822/iter_paragraphs: file-like objects '
+    'and sequences of lines, str or bytes).  CR is in the quantified domain, so an accepted value containing CR must '
+    'give one paragraph with the same field names there too.  Guards: (a) only the paragraph count and the field '
+    'names are compared - a value that re-reads with different content (CR kept inside a line, blanks trimmed, a '
+    'whitespace-only line dropped) is not a violation; (b) what follows the final LF of the dump is not handed over '
+    "as a further (empty) line, as when a file is read back; (c) the 'blank continuation line' guard of the default "
+    'setting uses the model lines (cut at LF, CR LF, CR): an LF-cut line can be whitespace-only only if one of the '
+    'model lines it is made of is blank, so no further guard is needed; (d) the Deb822(...) constructor reads one '
+    'paragraph: its field names must be those of the paragraph, and - only when the source is an iterator or file, '
+    'where the question is defined - a second constructor call on the same source must come back empty; (e) files are '
+    'written by dump(fd) (binary: the paragraph\'s own utf-8 encoding; text: text_mode=True on a utf-8 file opened '
+    'with newline=LF so that neither direction translates), flushed and rewound on the same handle.',
+    'The text file re-opened with the default universal-newline translation turns CR and CR LF into LF before the '
+    'parser sees them; that is the line model of the property (every continuation line of an accepted value is '
+    'indented and non-empty), so one paragraph with the same names is demanded there too; it is counted in M.reread '
+    'but not in M.reread-lf.',
     'No must-accept demand: values without a stated defect that the library rejects are counted, never reported.',
     'Deb822(dict) with a defective value: any exception counts as a rejection on that route (the statement speaks of '
     'assignment to a field of an existing paragraph); the exception types seen are recorded in coverage.ctor_reject_types.',
@@ -68,19 +113,32 @@ MUST_REACH = ['debian.deb822:Deb822.validate_input', 'debian.deb822:Deb822.__set
               'debian.deb822:Deb822._dump_format', 'debian.deb822:Deb822._internal_parser',
               'debian.deb822:Deb822.iter_paragraphs']
 
-# ~50% of what a run on the current tree measures; the enumeration counters are deterministic and must be complete
-FLOORS = {'quick': {'nontrivial': 45000,
-                    'monitors': {'M.reread': 340000, 'M.must-reject': 88000, 'M.unchanged': 89000,
+# ~50% of what a run on the current tree measures; the enumeration counters are deterministic and must be complete.
+# The form:* / api:* / lf:* counters and M.reread-lf belong to the LF-only re-read class: a run that never exercises it
+# (or never gets an accepted CR value into it) is INCONCLUSIVE, not held.
+FLOORS = {'quick': {'nontrivial': 47000,
+                    'monitors': {'M.reread': 430000, 'M.reread-lf': 80000, 'M.must-reject': 88000, 'M.unchanged': 89000,
                                  'K.setitem-raise': 90000},
                     'counters': {'enum-len:5': 100000, 'enum-len:4': 10000, 'accepted-multiline': 30000,
                                  'copy-checked': 1300, 'route:update': 1700, 'route:ctor': 1600,
-                                 'route:setdefault': 600}},
+                                 'route:setdefault': 600,
+                                 'form:stringio': 12000, 'form:lines-nl': 11500, 'form:lines-bare': 16000,
+                                 'form:bytesio': 16000, 'form:textfile': 11500, 'form:binfile': 11500,
+                                 'form:textfile-universal': 3700, 'api:Deb822()': 18000,
+                                 'lf:cr-value': 17000, 'lf:cr-value-4-forms': 5400, 'lf:cr-after-colon-blanks': 3700,
+                                 'lf:cr-at-line-end': 10000, 'lf:cr-mid-line': 6500}},
           'thorough': {'nontrivial': 2800000,     # recording cap is 400000 per shard x 14
-                       'monitors': {'M.reread': 11800000, 'M.must-reject': 3000000, 'M.unchanged': 5200000,
-                                    'K.setitem-raise': 5200000},
+                       'monitors': {'M.reread': 15000000, 'M.reread-lf': 2700000, 'M.must-reject': 3000000,
+                                    'M.unchanged': 5200000, 'K.setitem-raise': 5200000},
                        'counters': {'enum-len:7': 10000000, 'enum-len:6': 1000000, 'enum-len:5': 100000,
                                     'accepted-multiline': 1300000, 'copy-checked': 49000, 'route:update': 64000,
-                                    'route:ctor': 64000, 'route:setdefault': 22000}}}
+                                    'route:ctor': 64000, 'route:setdefault': 22000,
+                                    'form:stringio': 400000, 'form:lines-nl': 400000, 'form:lines-bare': 500000,
+                                    'form:bytesio': 500000, 'form:textfile': 400000, 'form:binfile': 400000,
+                                    'form:textfile-universal': 130000, 'api:Deb822()': 800000,
+                                    'lf:cr-value': 900000, 'lf:cr-value-4-forms': 100000,
+                                    'lf:cr-after-colon-blanks': 160000, 'lf:cr-at-line-end': 480000,
+                                    'lf:cr-mid-line': 410000}}}
 
 WS_FALSE = {'whitespace-separates-paragraphs': False}
 
@@ -107,6 +165,7 @@ SPECIAL_LINES = ['#comment', '# Inj: y', '-----BEGIN PGP SIGNED MESSAGE-----', '
 BLANKS = ['', ' ', '\t', '  ', ' \t ']
 PRINTABLE = ''.join(chr(c) for c in range(0x21, 0x7f)) + '      ' + u'\xe9\xdf\u5b57'
 BOUNDARIES = ['\n', '\n', '\n', '\r\n', '\r']
+CR_BOUNDARIES = ['\r', '\r', '\r\n', '\r\n', '\n']
 ROUTES = ['setitem', 'setitem', 'setitem', 'update', 'setdefault', 'ctor', 'copy']
 
 
@@ -129,16 +188,27 @@ def rand_value(r):
     # indentation discipline of this value: mostly well-formed (so that many long values are ACCEPTED and the
     # re-read monitor is exercised), sometimes sloppy (rejections), sometimes none
     p_indent = 1.0 if style < 0.55 else (0.85 if style < 0.85 else 0.3)
-    out = [rand_line(r) if r.random() < 0.85 else '']
+    # CR-centred values (1 in 6): the boundaries are mostly bare CR / CR LF, the first line is often blank (so that the
+    # dump reads 'Field: <blanks> CR ...') and the value often ends in CR - the shapes that read differently when the
+    # dump is cut into lines at LF only
+    cr_focus = r.random() < 1 / 6.0
+    bounds = CR_BOUNDARIES if cr_focus else BOUNDARIES
+    if cr_focus:
+        n = max(n, 2)
+        out = [r.choice(BLANKS) if r.random() < 0.6 else rand_line(r)]
+    else:
+        out = [rand_line(r) if r.random() < 0.85 else '']
     for _ in range(n - 1):
         line = rand_line(r)
         if r.random() < p_indent:
             line = r.choice([' ', ' ', '\t', '  ', ' \t']) + line
-        out.append(r.choice(BOUNDARIES))
+        out.append(r.choice(bounds))
         out.append(line)
     k = r.random()
     if k < 0.06:
         out.append(r.choice(['\n', '\r', '\r\n', '\n\n']))
+    elif cr_focus and k < 0.36:
+        out.append('\r')
     return ''.join(out)
 
 
@@ -162,6 +232,129 @@ def rand_case(r):
     if route == 'setdefault' and not new:
         route = 'setitem'
     return {'kind': 'one', 'fields': fields, 'target': target, 'v': rand_value(r), 'route': route}
+
+
+
+# ---------------------------------------------------------------------------
+# re-read forms.  'str' and 'bytes' are cut into lines by the library with splitlines() (a CR is a line boundary
+# there); the LF_FORMS hand the parser lines cut at LF ONLY, as when the dump went through a file.
+
+MEM_LF_FORMS = ['stringio', 'bytesio', 'lines-nl', 'lines-bare']
+DISK_LF_FORMS = ['textfile', 'binfile']
+LF_FORMS = MEM_LF_FORMS + DISK_LF_FORMS
+ALL_FORMS = ['str', 'bytes'] + LF_FORMS
+UNIVERSAL = 'textfile-universal'      # the text file re-opened with Python's default newline translation (CR -> LF)
+FILE_FORMS = ('textfile', 'binfile', UNIVERSAL)
+# iter_paragraphs weighs double on the LF-only forms: on an iterator the constructor is the loop body of iter_paragraphs
+ONE_COMBOS = ([(f, 'iter') for f in LF_FORMS] * 2 + [(f, 'ctor') for f in ALL_FORMS] + [(UNIVERSAL, 'iter')])
+ALL_COMBOS = ([(f, 'iter') for f in LF_FORMS] + [(f, 'ctor') for f in ALL_FORMS]
+              + [(UNIVERSAL, 'iter'), (UNIVERSAL, 'ctor')])
+CR_MID = re.compile(r'[^ \t\r\n][ \t]*\r(?!\n)[ \t]')
+
+
+def plan(depth, sel):
+    """Extra (form, api) pairs beyond the always-run str/bytes x iter_paragraphs; a function of the case only."""
+    if depth == 'all':
+        return ALL_COMBOS
+    if depth == 'full':
+        # str lines with terminators from one of two equivalent sources, str lines without terminators, bytes lines,
+        # one of the two files; for 1 in 4 also one constructor re-read / the translated text file
+        out = [(('stringio', 'lines-nl')[(sel >> 6) & 1], 'iter'), ('lines-bare', 'iter'), ('bytesio', 'iter'),
+               (DISK_LF_FORMS[sel & 1], 'iter')]
+        if sel & 6 == 0:
+            out.append((ALL_FORMS[(sel >> 3) % len(ALL_FORMS)], 'ctor'))
+        if sel & 48 == 0:
+            out.append((UNIVERSAL, 'iter'))
+        return out
+    if depth == 'some':            # two of the LF-only forms + one constructor re-read
+        i = sel % len(LF_FORMS)
+        return [(LF_FORMS[i], 'iter'), (LF_FORMS[(i + 1 + (sel >> 4) % 5) % len(LF_FORMS)], 'iter'),
+                (ALL_FORMS[(sel >> 8) % len(ALL_FORMS)], 'ctor')]
+    if depth == 'one':
+        return [ONE_COMBOS[sel % len(ONE_COMBOS)]]
+    return ()
+
+
+_FILES = {}
+
+
+def scratch_files(ctx):
+    """Two scratch files per shard, created once and rewritten in place."""
+    if not _FILES:
+        d = ctx.tmpdir()
+        _FILES['tpath'] = os.path.join(d, 'dump.txt')
+        _FILES['t'] = open(_FILES['tpath'], 'w+', encoding='utf-8', newline='\n')   # no translation either way
+        _FILES['b'] = open(os.path.join(d, 'dump.bin'), 'w+b')
+    return _FILES
+
+
+class Sources(object):
+    """The dump of one paragraph in every re-read form (fresh source object per re-read)."""
+
+    def __init__(self, ctx, d, text):
+        self.ctx, self.d, self.text = ctx, d, text
+        self._bytes = self._lines = self._nl = None
+        self._written = set()
+
+    def lines(self):
+        if self._lines is None:
+            parts = self.text.split('\n')
+            if parts and parts[-1] == '':
+                parts.pop()              # what follows the final LF is not a line (as when a file is read back)
+            self._lines = parts
+            self._nl = [l + '\n' for l in parts]
+        return self._lines
+
+    def _file(self, which):
+        fs = scratch_files(self.ctx)
+        f = fs[which]
+        if which not in self._written:
+            f.seek(0)
+            f.truncate()
+            if which == 't':
+                self.d.dump(f, text_mode=True)
+            else:
+                self.d.dump(f)
+            f.flush()
+            self._written.add(which)
+        f.seek(0)
+        return f
+
+    def get(self, form, api):
+        """(source, is_iterator, closer)"""
+        if form == 'str':
+            return self.text, False, None
+        if form == 'bytes' or form == 'bytesio':
+            if self._bytes is None:
+                self._bytes = self.text.encode('utf-8')
+            if form == 'bytes':
+                return self._bytes, False, None
+            return io.BytesIO(self._bytes), True, None
+        if form == 'stringio':
+            return io.StringIO(self.text), True, None
+        if form == 'lines-nl' or form == 'lines-bare':
+            self.lines()
+            seq = self._nl if form == 'lines-nl' else self._lines
+            if api == 'ctor':
+                return iter(seq), True, None       # an iterator, so that what follows the first paragraph can be read
+            return seq, True, None
+        if form == 'textfile':
+            return self._file('t'), True, None
+        if form == 'binfile':
+            return self._file('b'), True, None
+        if form == UNIVERSAL:
+            self._file('t')
+            f = open(scratch_files(self.ctx)['tpath'], 'r', encoding='utf-8')
+            return f, True, f.close
+        raise ValueError('unknown form %r' % form)
+
+    def file_content(self, form):
+        try:
+            f = scratch_files(self.ctx)['b' if form == 'binfile' else 't']
+            f.seek(0)
+            return f.read()
+        except Exception as e:           # only used to word a report
+            return '<unreadable: %s>' % e
 
 
 # ---------------------------------------------------------------------------
@@ -197,6 +390,10 @@ K_ACTIVE = [False]     # the K snapshot is taken only while the harness drives a
 def finish(ctx):
     from .. import contracts
     contracts.flush_evals(ctx)
+    for k in ('t', 'b'):
+        if k in _FILES:
+            _FILES[k].close()
+    _FILES.clear()
 
 
 def cases(ctx):
@@ -228,43 +425,85 @@ def one_case(fields, target, v, route):
     return {'kind': 'one', 'fields': fields, 'target': target, 'v': v, 'route': route}
 
 
-def check_reread(ctx, d, v, small, what='dump'):
-    """M.reread: the accepted value's paragraph re-reads as ONE paragraph with the same names."""
+def classify(keys, names, nparas):
+    if nparas > 1:
+        return 'accepted-value-starts-new-paragraph'
+    if nparas == 0:
+        return 'accepted-value-reread-empty'
+    lk, lg = [x.lower() for x in keys], [x.lower() for x in names[0]]
+    if [x for x in lg if x not in lk]:
+        return 'accepted-value-adds-field'
+    if [x for x in lk if x not in lg]:
+        return 'accepted-value-truncates-paragraph'
+    return 'accepted-value-changes-field-names'
+
+
+def reread_once(src, is_iter, api, strict):
+    """Field names of the paragraphs one re-read gives.  api 'iter': Deb822.iter_paragraphs; api 'ctor': the
+    Deb822(...) constructor (reads the first paragraph; on an iterator/file a second call reads what follows)."""
     from debian.deb822 import Deb822
+    if api == 'iter':
+        return [list(p) for p in Deb822.iter_paragraphs(src, strict=strict)]
+    first = Deb822(src, strict=strict)
+    names = [list(first)] if first else []
+    if is_iter:
+        rest = Deb822(src, strict=strict)
+        if rest:
+            names.append(list(rest))
+    return names
+
+
+def check_reread(ctx, d, v, small, what='dump', depth='none', sel=0):
+    """M.reread: the accepted value's paragraph re-reads as ONE paragraph with the same names."""
     keys = list(d)
     text = d.dump()
     blank = model.blank_continuation(v)
+    combos = [('str', 'iter'), ('bytes', 'iter')]
+    extra = plan(depth, sel)
+    if extra:
+        combos.extend(extra)
+        if '\r' in v:
+            ctx.count('lf:cr-value')
+            if depth in ('full', 'all'):
+                ctx.count('lf:cr-value-4-forms')
+            if v.lstrip(' \t')[:1] == '\r':
+                ctx.count('lf:cr-after-colon-blanks')
+            if '\r\n' in v or v[-1] == '\r':
+                ctx.count('lf:cr-at-line-end')
+            if CR_MID.search(v):
+                ctx.count('lf:cr-mid-line')
+    srcs = Sources(ctx, d, text)
     found = {}        # mechanism key -> (first detail, [modes]) : one report per mechanism per case
     for strict, sname in ((WS_FALSE, 'ws-false'), (None, 'default')):
         if strict is None and blank:
             ctx.count('reread-default-skipped:blank-continuation')
             continue
-        for form in ('str', 'bytes'):
-            data = text if form == 'str' else text.encode('utf-8')
-            mode = '%s/%s' % (form, sname)
+        for form, api in combos:
+            mode = '%s/%s' % (form, sname) if api == 'iter' else '%s/Deb822()/%s' % (form, sname)
             ctx.mon('M.reread')
+            if form not in ('str', 'bytes'):
+                if form != UNIVERSAL:
+                    ctx.mon('M.reread-lf')
+                ctx.count('form:' + form)
+            if api == 'ctor':
+                ctx.count('api:Deb822()')
+            closer = None
             try:
-                paras = list(Deb822.iter_paragraphs(data, strict=strict))
+                src, is_iter, closer = srcs.get(form, api)
+                names = reread_once(src, is_iter, api, strict)
             except Exception as e:       # the dump of an accepted value cannot be read back at all
                 found.setdefault('reread-raises', ('raised %s: %s' % (type(e).__name__, e), []))[1].append(mode)
                 continue
-            names = [list(p) for p in paras]
-            if len(paras) == 1 and names[0] == keys:
+            finally:
+                if closer is not None:
+                    closer()
+            if len(names) == 1 and names[0] == keys:
                 continue
-            detail = 'gives %d paragraph(s) with fields %r' % (len(paras), names)
-            if len(paras) > 1:
-                key = 'accepted-value-starts-new-paragraph'
-            elif len(paras) == 0:
-                key = 'accepted-value-reread-empty'
-            else:
-                lk, lg = [x.lower() for x in keys], [x.lower() for x in names[0]]
-                if [x for x in lg if x not in lk]:
-                    key = 'accepted-value-adds-field'
-                elif [x for x in lk if x not in lg]:
-                    key = 'accepted-value-truncates-paragraph'
-                else:
-                    key = 'accepted-value-changes-field-names'
-            found.setdefault(key, (detail, []))[1].append(mode)
+            more = ' (at least)' if api == 'ctor' and len(names) > 1 else ''
+            detail = 'gives %d%s paragraph(s) with fields %r' % (len(names), more, names)
+            if form in FILE_FORMS:
+                detail += ' [file written by dump(fd) holds %r]' % (srcs.file_content(form),)
+            found.setdefault(classify(keys, names, len(names)), (detail, []))[1].append(mode)
     for key, (detail, modes) in sorted(found.items()):
         ctx.violation(key, '%s of accepted value %r is %r; re-read [%s] %s; expected one paragraph with fields %r'
                       % (what, v, text, ', '.join(modes), detail, keys), small)
@@ -272,8 +511,9 @@ def check_reread(ctx, d, v, small, what='dump'):
     return ok
 
 
-def assign_and_check(ctx, fields, target, v, route, d=None):
-    """Returns the paragraph if it is still pristine (rejected and verified unchanged) so the caller may reuse it."""
+def assign_and_check(ctx, fields, target, v, route, d=None, depth='none', salt=0):
+    """Returns the paragraph if it is still pristine (rejected and verified unchanged) so the caller may reuse it.
+    depth: how many of the extra re-read forms an accepted value goes through (plan()); a replay runs them all."""
     from debian.deb822 import Deb822
     from ..core import MonitorViolation
     from .. import contracts
@@ -357,7 +597,10 @@ def assign_and_check(ctx, fields, target, v, route, d=None):
         ctx.violation('defective-value-accepted/' + dfx[0],
                       'value %r has the stated defect(s) %s but assigning it to %r (%s) was accepted; dump is %r'
                       % (v, '+'.join(dfx), target, route, d.dump()), small)
-    check_reread(ctx, d, v, small)
+    if ctx.replay:
+        depth = 'all'
+    sel = (zlib.crc32(v.encode('utf-8')) >> 3) + salt if depth != 'none' else 0
+    check_reread(ctx, d, v, small, depth=depth, sel=sel)
     if route == 'copy':
         try:
             c = d.copy()
@@ -365,14 +608,21 @@ def assign_and_check(ctx, fields, target, v, route, d=None):
             ctx.count('copy-rejected')      # no must-accept demand
         else:
             ctx.count('copy-checked')
-            check_reread(ctx, c, v, small, what='dump of copy()')
+            check_reread(ctx, c, v, small, what='dump of copy()', depth='all' if ctx.replay else 'one', sel=sel + 5)
     return None
 
 
 def run_case(ctx, case):
     kind = case['kind']
     if kind == 'one':
-        assign_and_check(ctx, case['fields'], case['target'], case['v'], case.get('route', 'setitem'))
+        v = case['v']
+        if '\r' not in v:
+            depth = 'one'
+        elif zlib.crc32(v.encode('utf-8')) % (2 if ctx.quick else 3) == 0:
+            depth = 'some'
+        else:
+            depth = 'one'
+        assign_and_check(ctx, case['fields'], case['target'], v, case.get('route', 'setitem'), depth=depth)
         return
     if kind != 'enum':
         raise ValueError('unknown case kind %r' % kind)
@@ -397,9 +647,19 @@ def run_case(ctx, case):
             chosen = (0, 1 + (n // 3 if k > 6 else n) % rot)
         else:
             chosen = (0,)
+        cr = '\r' in v
         for li in chosen:
             lay = ENUM_LAYOUTS[li]
-            pristine[li] = assign_and_check(ctx, lay['fields'], lay['target'], v, 'setitem', pristine[li])
+            if li:
+                depth = 'one' if cr and li == chosen[1] else 'none'
+            elif cr:
+                depth = 'full' if k <= 6 or n % 8 == 0 else 'one'
+            elif k <= 5:
+                depth = 'one' if n % 8 == 0 or ('\n' in v and n % 2) else 'none'
+            else:
+                depth = 'one' if n % (2 if k == 6 else 8) == 1 else 'none'
+            pristine[li] = assign_and_check(ctx, lay['fields'], lay['target'], v, 'setitem', pristine[li],
+                                            depth=depth, salt=li)
 
 
 LEVEL_TEXT = ('Runtime monitoring: every string of <= 5 (quick) / <= 7 (thorough) tokens over a 10-token hostile alphabet '
@@ -407,12 +667,18 @@ LEVEL_TEXT = ('Runtime monitoring: every string of <= 5 (quick) / <= 7 (thorough
               'multi-line values are assigned to fields of live Deb822 paragraphs (item assignment, update, setdefault, '
               'Deb822(dict), copy).  Each accepted assignment is dumped and re-read through Deb822.iter_paragraphs (str and '
               'bytes; whitespace-separates-paragraphs=False, and the default when no continuation line is blank) and must '
-              'give one paragraph with the same field names; accepted values must be free of the three stated defects per '
+              'give one paragraph with the same field names; accepted values containing CR (all enumerated ones of <= 5 / '
+              '<= 6 tokens, a rotating share of the rest) are also re-read in forms whose lines are cut at LF only - '
+              'StringIO, BytesIO, lists of lines with and without terminators, a real text and a real binary file written '
+              'by dump(fd) - through iter_paragraphs and the Deb822(...) constructor, with the same demand (paragraph count '
+              'and field names only, never values); accepted values must be free of the three stated defects per '
               'an independent model; rejections must be ValueError and leave list()/dump() unchanged.  Held-on-observed, '
               'not a proof: reach is the enumerated space plus the sampled values.')
 LEVEL_NOTE = ('Trusted: CPython, vp.models.deb822value (line model of the three stated defects), the layout table. Domain as '
               'quantified (no exotic Unicode line boundaries/whitespace); field names are ordinary and disjoint from injectable '
-              'names; no must-accept demand; on the Deb822(dict) route any exception counts as rejection.')
+              'names; no must-accept demand; on the Deb822(dict) route any exception counts as rejection.  Reading the dump '
+              'back from a file / a sequence of LF-cut lines is taken to be within "reading it back"; values are never compared.')
 TECHNIQUE = ('runtime monitoring: boundary oracle M.reread (dump of every accepted assignment re-read by the live parser in all '
-             'stated settings: one paragraph, same field names) as deciding monitor, with reference-model monitor M.must-reject, '
+             'stated settings and, for values containing CR, in every input form that cuts lines at LF only - in-memory streams, '
+             'line lists, real text/binary files: one paragraph, same field names) as deciding monitor, with reference-model monitor M.must-reject, '
              'history monitor M.unchanged on rejections and an exceptional-exit contract on Deb822.__setitem__')
